@@ -1,11 +1,10 @@
 (* Proofs/SerdeValueProofs.v -- C17: Value's own Serialize / Deserialize.
    Serialising reproduces the value (duplicates collapse to first position / last value,
-   "-0" becomes "0") outside the classes K1 (integer syntax that is not a 64-bit integer) and
-   K4 (an object whose first key is serde_json's private number token); deserialising from
-   a Value or from a self-describing front end yields the same structure with every number
-   denoting the same integer or double, outside K2/K3 (resp. K5) and K4, under explicit
-   hypotheses on the dependencies (lexical's lossy parser and writer, serde_json's number
-   parser).  Witnesses show that each class is a genuine deviation. *)
+   "-0" becomes "0") outside the class K4 (an object whose first key is serde_json's
+   private number token); deserialising from a Value or from a self-describing front end
+   yields the same structure with every number denoting the same integer or double, outside
+   K3 (nearest double infinite) and K4, under the explicit hypothesis that lexical's float
+   writer prints a spelling that reads back to the same double. *)
 From Coq Require Import SpecFloat.
 From JsonSyntax Require Import Base.Prelude Base.Value Base.Float64 Spec.Multimap
   Spec.EcmaNumber Spec.NumSpelling Spec.SerdeData Spec.SerdeJsonValue Spec.SerdeRoundTrip
@@ -133,15 +132,6 @@ Proof.
   rewrite Hn, int64_val_fmt_int by lia. apply Z.eqb_refl.
 Qed.
 
-Lemma combine3 (a b c : list N -> bool) v :
-  all_nums a v = true -> all_nums (fun n => negb (b n)) v = true ->
-  all_nums (fun n => negb (c n)) v = true ->
-  all_nums (fun n => a n && negb (b n) && negb (c n)) v = true.
-Proof.
-  intros Ha Hb Hc.
-  rewrite (all_nums_and (fun n => a n && negb (b n)) (fun n => negb (c n))).
-  rewrite (all_nums_and a (fun n => negb (b n))). rewrite Ha, Hb, Hc. reflexivity.
-Qed.
 
 Lemma parse_i64_nonneg_not_u64 n z :
   parse_i64 n = Some z -> parse_u64 n = None -> (0 <= z)%Z -> z = 0%Z.
@@ -158,15 +148,13 @@ Qed.
 (* the local fixpoints of the model, named                             *)
 (* ================================================================== *)
 Section Proofs.
-  Variable lossy : list N -> spec_float.
   Variable fmt_lex : spec_float -> list N.
-  Variable sj_parse : list N -> option spec_float.
 
   Notation ser := (ser fmt_lex).
   Notation to_value := (to_value fmt_lex).
   Notation de_value := (de_value fmt_lex).
-  Notation from_value := (from_value lossy fmt_lex).
-  Notation from_text := (from_text fmt_lex sj_parse).
+  Notation from_value := (from_value fmt_lex).
+  Notation from_text := (from_text fmt_lex).
 
   Fixpoint ser_list (l : list sd) : outcome ser_err (list value) :=
     match l with
@@ -223,43 +211,42 @@ Section Proofs.
 
   (* ---------------------------------------------------------------- numbers *)
 
-  Lemma ser_number n :
-    valid_number n = true -> K1num n = false ->
-    ser (emit_number n) = Ok (VNum (neg_zero_num n)).
+  Lemma neg_zero_num_not_i64 n : parse_i64 n = None -> neg_zero_num n = n.
   Proof.
-    intros Hv Hk. unfold emit_number. destruct (has_decimal_point n) eqn:Hd.
+    intros H. destruct (neg_zero_num_spec n) as [->|E]; [|exact E]. vm_compute in H. discriminate.
+  Qed.
+
+  Lemma ser_number n :
+    valid_number n = true -> ser (emit_number n) = Ok (VNum (neg_zero_num n)).
+  Proof.
+    intros Hv. unfold emit_number. destruct (has_decimal_point n) eqn:Hd.
     - cbn [SerdeValue.ser]. rewrite Hv. rewrite neg_zero_num_id by auto. reflexivity.
     - destruct (parse_i64 n) as [z|] eqn:Hi.
       + cbn [SerdeValue.ser]. rewrite (fmt_int_parse_i64 n z Hv Hi). reflexivity.
       + destruct (parse_u64 n) as [z|] eqn:Hu.
         * cbn [SerdeValue.ser]. rewrite (fmt_int_parse_u64 n z Hv Hu).
           rewrite neg_zero_num_id; auto. right. congruence.
-        * exfalso. unfold K1num in Hk. rewrite Hd in Hk. cbn [negb andb] in Hk.
-          assert (is_int64 n = false) by (apply is_int64_false; auto). rewrite H in Hk. discriminate.
+        * cbn [SerdeValue.ser]. rewrite Hv, neg_zero_num_not_i64 by exact Hi. reflexivity.
   Qed.
 
   (* ---------------------------------------------------------------- C17, serialisation *)
   Theorem to_value_collapses : forall v,
-    wf_nums v = true -> K1 v = false -> K4 v = false -> to_value v = Ok (ser_spec v).
+    wf_nums v = true -> K4 v = false -> to_value v = Ok (ser_spec v).
   Proof.
-    unfold to_value, wf_nums, K1.
-    induction v as [| b | n | s | l IH | es IH] using value_ind'; intros Hw Hk1 Hk4; try reflexivity.
-    - cbn [emit ser_spec]. apply ser_number; [exact Hw|].
-      apply some_num_false in Hk1. cbn in Hk1. destruct (K1num n); auto; discriminate.
+    unfold to_value, wf_nums.
+    induction v as [| b | n | s | l IH | es IH] using value_ind'; intros Hw Hk4; try reflexivity.
+    - cbn [emit ser_spec]. apply ser_number. exact Hw.
     - cbn [emit ser_spec]. rewrite ser_seq_eq.
       rewrite (ser_list_map ser_spec); [reflexivity|].
-      apply all_nums_arr in Hw. apply some_num_false in Hk1. apply all_nums_arr in Hk1.
-      apply K4_arr in Hk4. rewrite Forall_forall in *. intros x Hx.
-      apply IH; auto. apply some_num_false. auto.
+      apply all_nums_arr in Hw. apply K4_arr in Hk4. rewrite Forall_forall in *. intros x Hx.
+      apply IH; auto.
     - cbn [emit ser_spec]. rewrite ser_map_eq.
-      apply all_nums_obj in Hw. apply some_num_false in Hk1. apply all_nums_obj in Hk1.
-      apply K4_obj in Hk4 as [Hfirst Hk4].
+      apply all_nums_obj in Hw. apply K4_obj in Hk4 as [Hfirst Hk4].
       rewrite (ser_entries_ok ser_spec).
       + rewrite fold_insert_collapse. reflexivity.
-      + rewrite Forall_forall in *. intros e He. apply IH; auto. apply some_num_false. auto.
+      + rewrite Forall_forall in *. intros e He. apply IH; auto.
       + right. destruct es as [|[k x] r]; cbn in *; auto.
   Qed.
-
 
   Lemma ser_spec_nodup v : nodup_keysb v = true -> ser_spec v = neg_zero_norm v.
   Proof.
@@ -275,10 +262,10 @@ Section Proofs.
   Qed.
 
   Theorem to_value_reproduces : forall v,
-    wf_nums v = true -> K1 v = false -> K4 v = false -> nodup_keysb v = true ->
+    wf_nums v = true -> K4 v = false -> nodup_keysb v = true ->
     to_value v = Ok (neg_zero_norm v).
   Proof.
-    intros v Hw H1 H4 Hd. rewrite to_value_collapses by assumption.
+    intros v Hw H4 Hd. rewrite to_value_collapses by assumption.
     rewrite ser_spec_nodup by assumption. reflexivity.
   Qed.
 
@@ -319,9 +306,9 @@ Section Proofs.
       end.
   End Gen.
 
-  Lemma events_gen v : events lossy v = gen_events (number_events lossy) v.
+  Lemma events_gen v : events v = gen_events number_events v.
   Proof. reflexivity. Qed.
-  Lemma events_sj_gen v : events_sj sj_parse v = gen_events (sj_number_events sj_parse) v.
+  Lemma events_sj_gen v : events_sj v = gen_events sj_number_events v.
   Proof. reflexivity. Qed.
 
   (* ---------------------------------------------------------------- vrelb *)
@@ -408,58 +395,46 @@ Section Proofs.
   Qed.
 
   (* ---------------------------------------------------------------- from_value *)
-  (* lexical's lossy parser is exact on valid spellings of at most 19 significant digits *)
-  Definition lossy_exact_to_19_digits : Prop :=
-    forall n, valid_number n = true -> is_int64 n = false -> K2num n = false -> lossy n = dbl n.
+  Definition p_de (n : list N) : bool := negb (K3num n).
 
-  Definition p_de (n : list N) : bool := valid_number n && negb (K2num n) && negb (K3num n).
-
-  Lemma numok_de : lossy_exact_to_19_digits -> lex_round_trips ->
-    forall n, p_de n = true -> numok (number_events lossy) n.
+  Lemma K3num_false_finite n : is_int64 n = false -> K3num n = false -> sf_is_finite (dbl n) = true.
   Proof.
-    intros Hlossy Hlex n Hp. unfold p_de in Hp.
-    apply andb_true_iff in Hp as [Hp H3]. apply andb_true_iff in Hp as [Hv H2].
-    apply negb_true_iff in H2, H3. unfold numok, number_events.
+    intros Hint H3. unfold K3num in H3. rewrite Hint in H3. cbn in H3.
+    apply negb_false_iff in H3. exact H3.
+  Qed.
+
+  Lemma numok_de : lex_round_trips -> forall n, p_de n = true -> numok number_events n.
+  Proof.
+    intros Hlex n Hp. unfold p_de in Hp. apply negb_true_iff in Hp. unfold numok, number_events.
     destruct (parse_u64 n) as [z|] eqn:Hu.
     - exists (fmt_int z). split; [reflexivity|]. apply num_pres_u64. exact Hu.
     - destruct (parse_i64 n) as [z|] eqn:Hi.
       + exists (fmt_int z). split; [reflexivity|]. apply num_pres_i64. exact Hi.
       + assert (Hint : is_int64 n = false) by (apply is_int64_false; auto).
-        rewrite (Hlossy n Hv Hint H2).
-        assert (Hf : sf_is_finite (dbl n) = true).
-        { unfold K3num in H3. rewrite Hint in H3. cbn in H3. apply negb_false_iff in H3. exact H3. }
+        pose proof (K3num_false_finite n Hint Hp) as Hf.
         exists (fmt_lex (dbl n)). cbn [SerdeValue.de_value]. unfold f64_value. rewrite Hf.
         split; [reflexivity|]. apply num_pres_dbl; auto.
   Qed.
 
-
   Theorem from_value_preserves :
-    lossy_exact_to_19_digits -> lex_round_trips ->
-    forall v, wf_nums v = true -> K2 v = false -> K3 v = false -> K4 v = false ->
+    lex_round_trips ->
+    forall v, K3 v = false -> K4 v = false ->
     exists w, from_value v = Ok w /\ de_ok v w = true.
   Proof.
-    intros Hlossy Hlex v Hw H2 H3 H4. unfold from_value. rewrite events_gen.
-    apply (de_main (number_events lossy) p_de (numok_de Hlossy Hlex)); [|exact H4].
-    apply combine3; [exact Hw| apply some_num_false; exact H2 | apply some_num_false; exact H3].
+    intros Hlex v H3 H4. unfold from_value. rewrite events_gen.
+    apply (de_main number_events p_de (numok_de Hlex)); [|exact H4].
+    apply some_num_false. exact H3.
   Qed.
 
   (* ---------------------------------------------------------------- from_text *)
-  (* serde_json's default float parser is exact where it is one rounded operation *)
-  Definition sj_parse_exact_in_fast_range : Prop :=
-    forall n, valid_number n = true -> is_int64 n = false -> sj_exact n = true ->
-    sj_parse n = if sf_is_finite (dbl n) then Some (dbl n) else None.
   (* lexical prints -0.0 as "-0" *)
   Definition lex_neg_zero : Prop := fmt_lex (S754_zero true) = [0x2D; 0x30]%N.
 
-  Definition p_txt (n : list N) : bool := valid_number n && negb (K5num n) && negb (K3num n).
-
-
-  Lemma numok_txt : sj_parse_exact_in_fast_range -> lex_round_trips -> lex_neg_zero ->
-    forall n, p_txt n = true -> numok (sj_number_events sj_parse) n.
+  Lemma numok_txt : lex_round_trips -> lex_neg_zero ->
+    forall n, p_de n = true -> numok sj_number_events n.
   Proof.
-    intros Hsj Hlex Hnz n Hp. unfold p_txt in Hp.
-    apply andb_true_iff in Hp as [Hp H3]. apply andb_true_iff in Hp as [Hv H5].
-    apply negb_true_iff in H5, H3. unfold numok, sj_number_events.
+    intros Hlex Hnz n Hp. unfold p_de in Hp. apply negb_true_iff in Hp.
+    unfold numok, sj_number_events.
     destruct (parse_u64 n) as [z|] eqn:Hu.
     - exists (fmt_int z). split; [reflexivity|]. apply num_pres_u64. exact Hu.
     - destruct (parse_i64 n) as [z|] eqn:Hi.
@@ -470,23 +445,19 @@ Section Proofs.
           rewrite Hnz. split; [reflexivity|].
           unfold num_pres, int64_val. rewrite Hi. reflexivity.
       + assert (Hint : is_int64 n = false) by (apply is_int64_false; auto).
-        assert (Hf : sf_is_finite (dbl n) = true).
-        { unfold K3num in H3. rewrite Hint in H3. cbn in H3. apply negb_false_iff in H3. exact H3. }
-        assert (Hex : sj_exact n = true).
-        { unfold K5num in H5. rewrite Hint in H5. cbn in H5. apply negb_false_iff in H5. exact H5. }
-        rewrite (Hsj n Hv Hint Hex), Hf.
+        pose proof (K3num_false_finite n Hint Hp) as Hf. rewrite Hf.
         exists (fmt_lex (dbl n)). cbn [SerdeValue.de_value]. unfold f64_value. rewrite Hf.
         split; [reflexivity|]. apply num_pres_dbl; auto.
   Qed.
 
   Theorem from_text_preserves :
-    sj_parse_exact_in_fast_range -> lex_round_trips -> lex_neg_zero ->
-    forall v, wf_nums v = true -> K5 v = false -> K3 v = false -> K4 v = false ->
+    lex_round_trips -> lex_neg_zero ->
+    forall v, K3 v = false -> K4 v = false ->
     exists w, from_text v = Ok w /\ de_ok v w = true.
   Proof.
-    intros Hsj Hlex Hnz v Hw H5 H3 H4. unfold from_text. rewrite events_sj_gen.
-    apply (de_main (sj_number_events sj_parse) p_txt (numok_txt Hsj Hlex Hnz)); [|exact H4].
-    apply combine3; [exact Hw| apply some_num_false; exact H5 | apply some_num_false; exact H3].
+    intros Hlex Hnz v H3 H4. unfold from_text. rewrite events_sj_gen.
+    apply (de_main sj_number_events p_de (numok_txt Hlex Hnz)); [|exact H4].
+    apply some_num_false. exact H3.
   Qed.
 
   (* on duplicate-free values nothing collapses *)
